@@ -458,20 +458,20 @@ def mutate(g, tree, cur, pv, alts, k, lookup):
     if name == "set":
         if alt:
             e = alt[k % len(alt)]
-            pv.add(auxref.to_python(subs[0], e, g, lookup))
+            pv.add(auxref.to_python(subs[0], e, g, lookup, in_key=True))
             key = _ek(auxgen.eqkey(subs[0], e))
             if any(_ek(auxgen.eqkey(subs[0], x)) == key for x in cur):
                 return cur
             return cur + [e]
         if cur:
             e = cur[k % len(cur)]
-            pv.discard(auxref.to_python(subs[0], e, g, lookup))
+            pv.discard(auxref.to_python(subs[0], e, g, lookup, in_key=True))
             return [x for x in cur if x is not e]
         return None
     if name == "mapping":
         if alt:
             kk, vv = alt[k % len(alt)]
-            pv[auxref.to_python(subs[0], kk, g, lookup)] = auxref.to_python(subs[1], vv, g, lookup)
+            pv[auxref.to_python(subs[0], kk, g, lookup, in_key=True)] = auxref.to_python(subs[1], vv, g, lookup)
             key = _ek(auxgen.eqkey(subs[0], kk))
             out, hit = [], False
             for a, b in cur:
@@ -485,7 +485,7 @@ def mutate(g, tree, cur, pv, alts, k, lookup):
             return out
         if cur:
             a, b = cur[k % len(cur)]
-            del pv[auxref.to_python(subs[0], a, g, lookup)]
+            del pv[auxref.to_python(subs[0], a, g, lookup, in_key=True)]
             return [x for x in cur if x[0] is not a]
         return None
     return None
